@@ -407,6 +407,9 @@ func Queries() Spec {
 	for _, e := range evs {
 		exp[e.Name] = true
 	}
-	return Spec{Name: "queries", Seeds: []explore.Seed{prepared, fresh, prefix, weak}, Events: evs,
+	// rows as a hand-written genesis may spell them: zero amounts absent (a retirement without any cancellation
+	// leaves the cancelled amount absent next to a present retired amount)
+	sparse := GenesisSeed("genesis-with-absent-zero-amounts", append(PreparedActions(), Retire(C, B2, "0.5")), DropZeroAmounts)
+	return Spec{Name: "queries", Seeds: []explore.Seed{prepared, fresh, prefix, weak, sparse}, Events: evs,
 		DepthQuick: 3, DepthThor: 4, ExpectFail: exp, MinStates: 40}
 }
